@@ -3,23 +3,35 @@ import Bmc.Proto.Timing
 namespace Bmc.Driver
 open Bmc.Proto.Timing
 
-/-- `time <call> <T_ms> <D_ms> <fault>`: the model's prediction — under every fault no attempt ever receives a final
-    response, so the call ends in an error, and (by `returns_by_deadline`) not after the deadline; run the model on
-    the fault's attempt stream to get both -/
+/-- the attempt stream of one step under a fault (`none` = a well-behaved BMC) -/
+def faultAtt (t : Nat) (fault : String) : Nat → Att := fun _ =>
+  match fault with
+  | "none" => ⟨1, true, 0⟩
+  | "late" => ⟨t + 60, true, 500⟩
+  | "blackhole" => ⟨1000000, false, 500⟩
+  | _ => ⟨1, false, 500⟩
+
+/-- `time <call> <T_ms> <D_ms> <fault[@k]>`: the model's prediction. The call is a single retry loop (`sl`, `cmd`,
+    `close`), a sequence of three exchanges (`hs`) or the outer retry over walks of nine steps (`sdr`, the reference
+    BMC's repository holds three records); with `fault@k` the first k datagrams are answered properly, i.e. the first k
+    steps succeed at once. Under every fault no step that meets it ever receives a final response, so the call ends in
+    an error, and (by `returns_by_deadline` / `sequence_returns_by_deadline` / `retrieval_returns_by_deadline`) not after
+    the deadline. -/
 def evalTime (args : List String) : String :=
   match args with
-  | [call, t, d, fault] =>
+  | [call, t, d, faultK] =>
     match t.toNat?, d.toNat? with
     | some t, some d =>
-      let att : Nat → Att := fun _ =>
-        match fault with
-        | "none" => ⟨1, true, 0⟩
-        | "late" => ⟨t + 60, true, 500⟩
-        | "blackhole" => ⟨1000000, false, 500⟩
-        | _ => ⟨1, false, 500⟩
-      -- in-session calls fail at the first transport error; the session-level result is the same: error by the deadline
-      let _ := call
-      match run (max 1 t) d att (d + 2) 0 0 with
+      let (fault, k) := match faultK.splitOn "@" with
+        | [f, k] => (f, k.toNat?.getD 0)
+        | _ => (faultK, 0)
+      let step (i : Nat) : Nat → Att := if i < k then faultAtt t "none" else faultAtt t fault
+      let T := max 1 t
+      let r := match call with
+        | "hs" => runSeq T d (d + 2) ((List.range 3).map step) 0
+        | "sdr" => runOuter T d (d + 2) (fun w => (List.range 9).map (fun i => if w == 0 then step i else faultAtt t fault)) (fun _ => 500) (d + 2) 0 0
+        | _ => run T d (step 0) (d + 2) 0 0
+      match r with
       | some (tEnd, ok) => s!"res={if ok then "ok" else "err"} late={bool (decide (tEnd > max d 0))}"
       | none => "res=none late=1"
     | _, _ => "bad-op"
